@@ -26,7 +26,7 @@ RULE = (
     "unit of a sequence), AUTO major_version equals an independent reference of (11.2.2) and the real decoder raises no version error"
 )
 BOUNDS = {
-    "quick": "shapes: pictures x3, fragments (2 pictures), two sequences, padding/auxiliary payloads 0..3 bytes; all explicit/AUTO masks for picture numbers (<=3 pictures) and 24 seeded masks for offsets; preset indices 0..31 symbolic one group at a time",
+    "quick": "shapes: pictures x3, fragments (2 pictures), two sequences, padding/auxiliary payloads 0..3 bytes; all explicit/AUTO masks for picture numbers (<=3 pictures) and 24 seeded masks for offsets; preset indices 0..31 symbolic one group at a time, plus all three custom colour components together (0..7 each) and frame-rate x signal-range",
     "thorough": "as quick plus 4 pictures, all offset masks for <=4 units, indices 0..63, pairs of index groups",
 }
 OUTSIDE = "longer unit lists; picture payloads are the encoder's (concrete 2x2 pictures)"
@@ -84,7 +84,7 @@ def tasks(tier, seed):
         for m in ms:
             out.append({"id": "offsets %s mask=%d" % (shape, m), "harness": "fields", "args": (shape, "off", m, rnd.randrange(4))})
     # version-driving fields
-    groups = ["frame_rate", "signal_range", "color_spec", "color_primaries", "color_matrix", "transfer_function", "wavelet_ho", "depth_ho", "profile_frag"]
+    groups = ["frame_rate", "signal_range", "color_spec", "color_primaries", "color_matrix", "transfer_function", "color_all", "rates_and_range", "wavelet_ho", "depth_ho", "profile_frag"]
     for g in groups:
         for explicit_version in (None, "sym"):
             out.append({"id": "version %s explicit=%s" % (g, explicit_version), "harness": "version", "args": (g, explicit_version, 31 if q else 63)})
@@ -305,6 +305,21 @@ def _make_version_case(group, explicit_version, imax, sym):
             cs[group] = {"custom_%s_flag" % group: True, "index": i}
             info[group + "_index"] = i
         vp["color_spec"] = cs
+    elif group == "color_all":
+        # custom colour specification with all three components custom at once (interaction between the components)
+        cs = {"custom_color_spec_flag": True, "index": 0}
+        for g, d in (("color_primaries", 1), ("color_matrix", 2), ("transfer_function", 1)):
+            i = sym("index_" + g, 0, 7, d)
+            cs[g] = {"custom_%s_flag" % g: True, "index": i}
+            info[g + "_index"] = i
+        vp["color_spec"] = cs
+    elif group == "rates_and_range":
+        i = sym("index_fr", 1, min(imax, 15), 3)
+        j = sym("index_sr", 1, 8, 2)
+        vp["frame_rate"] = {"custom_frame_rate_flag": True, "index": i}
+        vp["signal_range"] = {"custom_signal_range_flag": True, "index": j}
+        info["frame_rate_index"] = i
+        info["signal_range_index"] = j
     elif group in ("wavelet_ho", "depth_ho"):
         tp = stream["sequences"][0]["data_units"][1]["picture_parse"]["wavelet_transform"]["transform_parameters"]
         if group == "wavelet_ho":
